@@ -485,55 +485,30 @@ def r_manymut(F, V):
             if not conv:
                 R.inst(key, "pointer array is not converted to references here", "ok", False, where(body, bb=i))
                 continue
-            # the checking loop: a loop containing a comparison call over the array and a diverging block
-            loops = body.natural_loops()
-            good = None
-            for h, blocks in loops:
-                cmp_calls = []
-                for b in blocks:
-                    tt = body.term(b)
-                    if tt["k"] == "call":
-                        cp = callee_path(tt) or ""
-                        decl = tt["f"].get("path", "")
-                        if cp.endswith("[T]::contains") or decl.endswith("PartialEq::eq") or decl.endswith("PartialEq::ne"):
-                            if any(a["k"] in ("copy", "move") and _derives_from(body, a, arr) for a in tt["args"]):
-                                cmp_calls.append(b)
-                if not cmp_calls:
-                    continue
-                good = (h, blocks, cmp_calls)
-            if not good:
-                R.violation(key, body, "the pointers returned by get_many_mut_pointers are turned into `&mut` without a pairwise pointer-identity check: two requests resolving to the same entry would yield aliasing mutable references", line=line_of(body, bb=conv[0]))
-                R.inst(key, "no identity check before creating &mut", "violation", True, where(body, bb=conv[0]))
-                continue
-            h, blocks, cmp_calls = good
+            # the checking loop: in this body, or in a helper that receives the array and dominates the conversion
+            chk = _identity_check_loop(body, arr)
+            h = None
             problems = []
-            # diverging blocks control-dependent on the comparison
-            div = [b for b in body.normal if not body.can_reach_return(b) and body.term(b)["k"] == "call" and (callee_path(body.term(b)) or "").startswith("core::panicking")]
-            div_ok = []
-            for d in div:
-                cs = controlling_sources(body, d)
-                if any(any(x == cb for cb in cmp_calls for x in [bb for lst in S.calls.values() for bb, _ in lst]) for (_, _, S) in cs):
-                    div_ok.append(d)
-                    # the panic may depend only on: loop iteration, is_some of the current pointer, the comparison
-                    for (bb, s, S) in cs:
-                        if bb not in blocks:
-                            continue
-                        extra = [c for c in S.calls if not (c.endswith("contains") or c.endswith("::eq") or c.endswith("::ne") or c.endswith("::next") or "iter" in c.lower() or c.endswith("<indirect>"))]
-                        if S.args - {1} or extra or S.indirect:
-                            problems.append("the duplicate panic is additionally conditioned on %s, not only on pointer identity: aliasing requests that differ in that respect are let through" % (sorted(extra) or "the caller's hashes/keys"))
-            if not div_ok:
-                problems.append("no diverging (panic) block is control-dependent on the pointer comparison")
-            # all non-panic exits of the loop are the iterator-exhaustion exit
-            for b in blocks:
-                for s in body.nsucc[b]:
-                    if s in blocks or not body.can_reach_return(s):
-                        continue
-                    if not _is_exhaustion_branch(body, b):
-                        problems.append("the checking loop can be left early (not through exhaustion of the pointer array): later duplicates are not compared")
-            # the conversion is dominated by the loop header (i.e. happens after the loop)
-            for c in conv:
-                if not body.dominates(h, c) or c in blocks:
-                    problems.append("references are created before the identity-check loop has finished")
+            if chk is not None:
+                h, blocks, problems = chk
+                for c in conv:
+                    if not body.dominates(h, c) or c in blocks:
+                        problems.append("references are created before the identity-check loop has finished")
+            else:
+                helper_ok = False
+                for j, t2 in body.calls():
+                    cp2 = callee_path(t2)
+                    if cp2 in F.bodies and cp2 != PTRS and any(a["k"] in ("copy", "move") and _derives_from(body, a, arr) for a in t2["args"]):
+                        hb = F.bodies[cp2]
+                        for q in range(1, hb.arg_count + 1):
+                            hc = _identity_check_loop(hb, q)
+                            if hc is not None and not hc[2] and t2.get("target") is not None and all(body.dominates(t2["target"], c) or t2["target"] == c for c in conv):
+                                helper_ok = True
+                                h = j
+                if not helper_ok:
+                    R.violation(key, body, "the pointers returned by get_many_mut_pointers are turned into `&mut` without a pairwise pointer-identity check: two requests resolving to the same entry would yield aliasing mutable references", line=line_of(body, bb=conv[0]))
+                    R.inst(key, "no identity check before creating &mut", "violation", True, where(body, bb=conv[0]))
+                    continue
             if problems:
                 R.violation(key, body, "; ".join(sorted(set(problems))), line=line_of(body, bb=h))
                 R.inst(key, "; ".join(sorted(set(problems))), "violation", True, where(body, bb=h))
@@ -581,6 +556,49 @@ def r_manymut(F, V):
         R.inst(PTRS + "|independent-find", "one unconditional find per requested key", "ok", True, where(pb))
     R.floor("safe bodies obtaining the pointer array", n, {"posctl": 0}.get(F.cfg, 1))
     return R
+
+
+def _identity_check_loop(body, arr):
+    """find a loop over the array local `arr` that compares its elements pairwise and panics on equality.
+    Returns (header, blocks, problems) or None when the body has no such loop."""
+    good = None
+    for h, blocks in body.natural_loops():
+        cmp_calls = []
+        for b in blocks:
+            tt = body.term(b)
+            if tt["k"] == "call":
+                cp = callee_path(tt) or ""
+                decl = tt["f"].get("path", "")
+                if cp.endswith("[T]::contains") or decl.endswith("PartialEq::eq") or decl.endswith("PartialEq::ne"):
+                    if any(a["k"] in ("copy", "move") and _derives_from(body, a, arr) for a in tt["args"]):
+                        cmp_calls.append(b)
+        if cmp_calls:
+            good = (h, blocks, cmp_calls)
+    if not good:
+        return None
+    h, blocks, cmp_calls = good
+    problems = []
+    div = [b for b in body.normal if not body.can_reach_return(b) and body.term(b)["k"] == "call" and (callee_path(body.term(b)) or "").startswith("core::panicking")]
+    div_ok = []
+    for d in div:
+        cs = controlling_sources(body, d)
+        if any(any(x == cb for cb in cmp_calls for x in [bb for lst in S.calls.values() for bb, _ in lst]) for (_, _, S) in cs):
+            div_ok.append(d)
+            for (bb, s, S) in cs:
+                if bb not in blocks:
+                    continue
+                extra = [c for c in S.calls if not (c.endswith("contains") or c.endswith("::eq") or c.endswith("::ne") or c.endswith("::next") or "iter" in c.lower() or c.endswith("<indirect>"))]
+                if S.args - {arr, 1} or extra or S.indirect:
+                    problems.append("the duplicate panic is additionally conditioned on %s, not only on pointer identity: aliasing requests that differ in that respect are let through" % (sorted(extra) or "the caller's hashes/keys"))
+    if not div_ok:
+        problems.append("no diverging (panic) block is control-dependent on the pointer comparison")
+    for b in blocks:
+        for s in body.nsucc[b]:
+            if s in blocks or not body.can_reach_return(s):
+                continue
+            if not _is_exhaustion_branch(body, b):
+                problems.append("the checking loop can be left early (not through exhaustion of the pointer array): later duplicates are not compared")
+    return h, blocks, problems
 
 
 def _is_exhaustion_branch(body, b):
